@@ -830,8 +830,15 @@ impl Gen {
           8 => VerdictS::Failed,
           2 | 3 => {
             let mut p = self.payload();
-            if p.is_empty() || p.len() > self.cfg.max_payload as usize {
+            if p.len() > self.cfg.max_payload as usize {
               p = b"ALTERED".to_vec();
+            }
+            // (an empty alteration — a modulator that redacts the whole payload — stays in: a MESSAGE cannot carry it)
+            if p.is_empty() {
+              p = b"ALTERED".to_vec();
+            }
+            if self.rng.chance(1, 6) {
+              p = Vec::new();
             }
             VerdictS::Altered(p)
           },
